@@ -9,6 +9,9 @@ import ClairModel.Proofs.Matchers
 import ClairModel.Proofs.MatchersLang
 import ClairModel.Gen.Matchers
 
+-- every variable of a property statement is bound explicitly: a misspelt name is an error, not a new variable
+set_option autoImplicit false
+
 namespace ClairModel.Props.C03
 open ClairModel ClairModel.Order ClairModel.OrderC03 ClairModel.VerCommon ClairModel.Matchers
 
